@@ -310,6 +310,16 @@ theorem aggregate_spec {es : List Entry} {gs : List Group} (h : aggregate es = .
     (∀ κ ∈ keysOf es, ∃ g ∈ gs, mkGroup κ (groupOf es κ) = .ok g) :=
   mapM_except_ok _ _ _ h
 
+def isConcatError : Except Err (List Group) → Bool
+  | .error .concat => true
+  | _ => false
+
+theorem isConcatError_iff (r : Except Err (List Group)) :
+    isConcatError r = true ↔ r = .error .concat := by
+  cases r with
+  | error e => cases e <;> simp [isConcatError]
+  | ok gs => simp [isConcatError]
+
 theorem mapM_except_total {α β ε : Type} (f : α → Except ε β) :
     ∀ l : List α, (∀ a ∈ l, ∃ b, f a = .ok b) → ∃ r, l.mapM f = .ok r
   | [], _ => ⟨[], by simp [List.mapM_nil, pure, Except.pure]⟩
